@@ -66,6 +66,15 @@ class Pool:
 
 
 # observation entry: (tag, id(bits)|None, id(refs)|None, ref_offset, type_, bits01, refs as pool indexes, hash hex|None)
+def _raw(o, name):
+    d = getattr(o, '__dict__', None)
+    if d is not None:
+        for k in (name, '_' + name):
+            if k in d:
+                return d[k]
+    return getattr(o, name)
+
+
 def observe(pool):
     """-> (entries, unknown) ; unknown = [(object index, cell object)] for Cell objects in a refs list that are not in the pool"""
     out = []
@@ -80,8 +89,11 @@ def observe(pool):
             refs = o
             bid, bits, off, kind, h = None, '', 0, -1, None
         else:
-            b = o.bits
-            refs = o.refs
+            # the containers are read from the instance dictionary, NOT through the public properties: an accessor may have side
+            # effects (a copy-on-write scheme un-shares on access) and the observation after every step must not repair the state
+            # the next step of the history is going to meet
+            b = _raw(o, 'bits')
+            refs = _raw(o, 'refs')
             bid, bits = id(b), b.to01()
             kind = o.type_
             off = o.ref_offset if t == 's' else 0
